@@ -129,16 +129,23 @@ func c13hWrite(path string, data []byte) error {
 	return os.Rename(tmp, path)
 }
 
-func c13hSubnets(seq int64) []byte {
-	return []byte(fmt.Sprintf(`
-[Networks]
-    [Networks.1]
-        Generation = 1
-        [[Networks.1.WeightedSubnets]]
+func c13hSubnets(seq int64) []byte { return c13hSubnetsG(seq, 1) }
+
+// c13hSubnetsG: version seq of the subnet file with decoy-list generations 1..gens, all of them on
+// the subnets of that version (so the set an answer comes from identifies the file version).
+func c13hSubnetsG(seq int64, gens uint32) []byte {
+	var sb strings.Builder
+	sb.WriteString("\n[Networks]\n")
+	for g := uint32(1); g <= gens; g++ {
+		fmt.Fprintf(&sb, `    [Networks.%d]
+        Generation = %d
+        [[Networks.%d.WeightedSubnets]]
             Weight = 1
             RandomizeDstPort = true
             Subnets = ["10.%d.%d.0/24", "2001:db8:%x::/64"]
-`, seq>>8, seq&255, 0x1000+seq))
+`, g, g, g, seq>>8, seq&255, 0x1000+seq)
+	}
+	return []byte(sb.String())
 }
 
 // c13hSetOf maps phantoms back to the number of the set they lie in (-1: none).
@@ -160,12 +167,27 @@ func c13hSetOf(ip4, ip6 net.IP) (s4, s6 int64) {
 }
 
 // c13hStart starts the real main() once.
+var (
+	c13hOnce   sync.Once
+	c13hShared *c13hSrv
+)
+
+// c13hStart returns the one registrar of this process (main() can be started only once; the
+// sub-checks of this package share it, one after the other).
 func c13hStart(t *testing.T) *c13hSrv {
-	dir, err := os.MkdirTemp("", "verif-c13-sighup-")
+	c13hOnce.Do(func() { c13hShared = c13hStartMain(t) })
+	if c13hShared == nil {
+		t.Fatalf("harness problem: the registrar could not be started earlier in this process")
+	}
+	return c13hShared
+}
+
+func c13hStartMain(t *testing.T) *c13hSrv {
+	// next to the record files, so that vcheck removes it with its work directory
+	dir, err := os.MkdirTemp(filepath.Dir(vh.OutDir()), "sighup-")
 	if err != nil {
 		t.Fatalf("harness problem: %v", err)
 	}
-	t.Cleanup(func() { os.RemoveAll(dir) })
 	s := &c13hSrv{dir: dir, subnetPath: filepath.Join(dir, "phantom_subnets.toml"), ccPath: filepath.Join(dir, "ClientConf"),
 		confPath: filepath.Join(dir, "reg_config.toml"), keyPath: filepath.Join(dir, "privkey"), logs: &c13hLog{},
 		client: &http.Client{Timeout: c13hReqTimeout}, mainDone: make(chan struct{})}
@@ -232,6 +254,11 @@ enforce_subnet_overrides = false
 // "transport" (no answer: not a verdict by itself), "status", "decode", "missing-family",
 // "foreign-phantom", "mixed-sets".
 func (s *c13hSrv) register(kind string) (set int64, key, msg string) {
+	return s.registerGen(kind, 1)
+}
+
+// registerGen: the same for a client that is on decoy-list generation gen.
+func (s *c13hSrv) registerGen(kind string, gen uint32) (set int64, key, msg string) {
 	n := s.reqN.Add(1)
 	tr := pb.TransportType_Min
 	secret := make([]byte, 32)
@@ -241,7 +268,7 @@ func (s *c13hSrv) register(kind string) (set int64, key, msg string) {
 		SharedSecret: secret,
 		RegistrationPayload: &pb.ClientToStation{
 			Transport:           &tr,
-			DecoyListGeneration: proto.Uint32(1),
+			DecoyListGeneration: proto.Uint32(gen),
 			CovertAddress:       proto.String("192.0.2.77:443"),
 			V4Support:           proto.Bool(kind != "v6"),
 			V6Support:           proto.Bool(kind != "v4"),
